@@ -1,6 +1,191 @@
 import CkbVerif.Driver.Util
+import CkbVerif.Model.Dao
+import CkbVerif.Model.Reward
+
+/-! Line-protocol driver for C06 (protocol: see harness/hnode/src/c06.rs). -/
 namespace CkbVerif.Driver.C06
-def main (_args : List String) : IO UInt32 := do
-  IO.eprintln "C06: model driver not implemented"
-  return 2
+open CkbVerif.Driver CkbVerif.Arith CkbVerif.Dao CkbVerif.Reward
+
+structure St where
+  win : Win := defaultWin
+  ratio : Ratio := proposerRatio
+  ser : Nat := 0
+  chain : List Blk := []
+  epochs : List Epoch := []
+  daos : List DaoField := []
+
+def errName : Err → String
+  | .overflow => "err-overflow"
+  | .panic => "panic"
+  | .invalidOutPoint => "err-outpoint"
+
+def showR (r : R Nat) : String :=
+  match r with
+  | .ok v => s!"ok {v}"
+  | .error e => errName e
+
+def showOpt (o : Option Nat) : String :=
+  match o with
+  | some v => toString v
+  | none => "err"
+
+def hexDigit (n : Nat) : Char :=
+  if n < 10 then Char.ofNat (48 + n) else Char.ofNat (87 + n)
+
+def hexOf (b : List Nat) : String :=
+  String.ofList (b.flatMap fun x => [hexDigit (x / 16 % 16), hexDigit (x % 16)])
+
+def hexVal (c : Char) : Option Nat :=
+  if c.isDigit then some (c.toNat - 48)
+  else if 'a' ≤ c ∧ c ≤ 'f' then some (c.toNat - 87)
+  else none
+
+def unhexAux : List Char → Option (List Nat)
+  | [] => some []
+  | [_] => none
+  | a :: b :: rest => do
+    let x ← hexVal a
+    let y ← hexVal b
+    let r ← unhexAux rest
+    pure ((x * 16 + y) :: r)
+
+def parseOptNat? (s : String) : Option (Option Nat) :=
+  if s = "n" then some none else (parseNat? s).map some
+
+/-- `cap:lockArgs:typeArgs|n:dataBytes` -/
+def parseCell? (fs : List String) : Option Cell :=
+  match fs with
+  | [a, b, c, d] => do
+    let cap ← parseNat? a
+    let la ← parseNat? b
+    let ta ← parseOptNat? c
+    let db ← parseNat? d
+    pure { cap := cap, lockArgs := la, typeArgs := ta, dataBytes := db }
+  | _ => none
+
+/-- `p:<cell>` | `s:<cell>` | `w:<cell>:depNum:depAr:wdNum:wdAr` -/
+def parseInput? (s : String) : Option Input :=
+  match s.splitOn ":" with
+  | k :: a :: b :: c :: d :: rest => do
+    let cell ← parseCell? [a, b, c, d]
+    match k, rest with
+    | "p", [] => pure ⟨cell, .plain⟩
+    | "s", [] => pure ⟨cell, .satoshi⟩
+    | "w", [dn, da, wn, wa] => do
+      let dn ← parseNat? dn
+      let da ← parseNat? da
+      let wn ← parseNat? wn
+      let wa ← parseNat? wa
+      pure ⟨cell, .daoWithdraw dn da wn wa⟩
+    | _, _ => none
+  | _ => none
+
+def parseList? {α : Type} (f : String → Option α) (sep : String) (s : String) : Option (List α) :=
+  if s = "-" then some [] else (s.splitOn sep).mapM f
+
+/-- `<inputs>|<outputs>` -/
+def parseTx? (s : String) : Option Tx :=
+  match s.splitOn "|" with
+  | [i, o] => do
+    let ins ← parseList? parseInput? "," i
+    let outs ← parseList? (fun x => parseCell? (x.splitOn ":")) "," o
+    pure ⟨ins, outs⟩
+  | _ => none
+
+def parseTxs? (s : String) : Option (List Tx) := parseList? parseTx? ";" s
+
+def showDao (r : R DaoField) : String :=
+  match r with
+  | .ok d => s!"ok {hexOf (pack d)} {d.ar} {d.c} {d.s} {d.u}"
+  | .error e => errName e
+
+def showBr (r : R BlockReward) : String :=
+  match r with
+  | .ok b => s!"ok total={b.total} primary={b.primary} secondary={b.secondary} txfee={b.txFee} proposal={b.proposalReward}"
+  | .error e => errName e
+
+def step (s : St) (ts : List String) : St × String :=
+  match ts with
+  | ["ratio", fee, n, d] =>
+    match parseNats? [fee, n, d] with
+    | some [fee, n, d] =>
+      (s, s!"p={showOpt (proposerShare ⟨n, d⟩ fee)} c={showOpt (committerShare ⟨n, d⟩ fee)}")
+    | _ => (s, "bad-op")
+  | ["pack", ar, c, s', u] =>
+    match parseNats? [ar, c, s', u] with
+    | some [ar, c, s', u] => (s, hexOf (pack ⟨ar, c, s', u⟩))
+    | _ => (s, "bad-op")
+  | ["extract", hx] =>
+    match unhexAux hx.toList with
+    | some bs =>
+      let d := extract bs
+      (s, s!"{d.ar} {d.c} {d.s} {d.u} {hexOf (pack d)}")
+    | none => (s, "bad-op")
+  | ["occupied", cell] =>
+    match parseCell? (cell.splitOn ":") with
+    | some c => (s, showR (occupied c))
+    | none => (s, "bad-op")
+  | ["withdraw", cell, dn, da, wn, wa] =>
+    match parseCell? (cell.splitOn ":"), parseNats? [dn, da, wn, wa] with
+    | some c, some [dn, da, wn, wa] =>
+      (s, showR (do let d ← capBytes c.dataBytes; maxWithdrawWith c d dn da wn wa))
+    | _, _ => (s, "bad-op")
+  | ["fee", tx] =>
+    match parseTx? tx with
+    | some t => (s, showR (transactionFee t))
+    | none => (s, "bad-op")
+  | ["primary", st, len, base, rem, n] =>
+    match parseNats? [st, len, base, rem, n] with
+    | some [st, len, base, rem, n] => (s, showR (primaryBlockReward ⟨st, len, base, rem⟩ n))
+    | _ => (s, "bad-op")
+  | ["secondary", ser, st, len, base, rem, n, pc, pu] =>
+    match parseNats? [ser, st, len, base, rem, n, pc, pu] with
+    | some [ser, st, len, base, rem, n, pc, pu] =>
+      (s, showR (secondaryBlockReward ser ⟨st, len, base, rem⟩ n ⟨0, pc, 0, pu⟩))
+    | _ => (s, "bad-op")
+  | ["dao", ser, st, len, base, rem, pn, ar, c, s', u, txs] =>
+    match parseNats? [ser, st, len, base, rem, pn, ar, c, s', u], parseTxs? txs with
+    | some [ser, st, len, base, rem, pn, ar, c, s', u], some txs =>
+      (s, showDao (daoField ser ⟨st, len, base, rem⟩ pn ⟨ar, c, s', u⟩ txs))
+    | _, _ => (s, "bad-op")
+  -- chain stream
+  | ["cfg", cl, far, n, d, ser] =>
+    match parseNats? [cl, far, n, d, ser] with
+    | some [cl, far, n, d, ser] =>
+      ({ win := ⟨cl, far⟩, ratio := ⟨n, d⟩, ser := ser }, "ok")
+    | _ => (s, "bad-op")
+  | ["blk", n, props, ids, fees, st, len, base, rem, ar, c, s', u] =>
+    match parseNats? [n, st, len, base, rem, ar, c, s', u], parseNatList? props, parseNatList? ids,
+          parseNatList? fees with
+    | some [n, st, len, base, rem, ar, c, s', u], some props, some ids, some fees =>
+      if n ≠ s.chain.length then (s, "bad-op") else
+      ({ s with chain := s.chain ++ [⟨props, ids, fees⟩],
+                epochs := s.epochs ++ [⟨st, len, base, rem⟩],
+                daos := s.daos ++ [⟨ar, c, s', u⟩] }, "ok")
+    | _, _, _, _ => (s, "bad-op")
+  | ["reward", p] =>
+    match parseNat? p with
+    | some p =>
+      if p < s.chain.length then
+        (s, showBr (blockRewardToFinalize s.win s.ratio s.ser s.chain
+              (fun n => s.epochs.getD n ⟨0, 0, 0, 0⟩) (fun n => s.daos.getD n ⟨0, 0, 0, 0⟩) p))
+      else (s, "bad-op")
+    | none => (s, "bad-op")
+  | ["verify", p, total, lockOcc, outs] =>
+    match parseNats? [p, total, lockOcc],
+          parseList? (fun x => match x.splitOn ":" with
+            | [a, b] => (parseNat? a).map fun a => (a, b == "1")
+            | _ => none) "," outs with
+    | some [p, total, lockOcc], some outs =>
+      (s, match rewardVerify s.win p total lockOcc outs with
+          | some .ok => "ok"
+          | some .invalidRewardTarget => "err-target"
+          | some .invalidRewardAmount => "err-amount"
+          | none => "err-overflow")
+    | _, _ => (s, "bad-op")
+  | _ => (s, "bad-op")
+
+def main (_args : List String) : IO UInt32 :=
+  runLines ({} : St) step
+
 end CkbVerif.Driver.C06
